@@ -44,14 +44,18 @@ BoundIndex(I, sel) == IF \E i \in 1..Len(I.methods) : I.methods[i].bound /\ I.se
 (* What the dispatcher must do with the request bytes `bs`:                  *)
 (*   [ok |-> FALSE, errs, used]            no handler runs, nothing is sent  *)
 (*   [ok |-> TRUE, h, args, used]          handler h runs once with args     *)
-Dispatch(I, bs) ==
-  LET d1 == Dec(SelSchema(I), Src(bs), 0, Inf) IN
+\* (viw: the width of the class a variant index may use - format.md says INT64, the decoder accepts INT32; that
+\* disagreement is C04's recorded finding, so the statements below hold if they hold under either reading)
+SrcW(bs, viw) == [bs |-> bs, ht |-> <<>>, viw |-> viw]
+DispatchW(I, bs, viw) ==
+  LET d1 == Dec(SelSchema(I), SrcW(bs, viw), 0, Inf) IN
   IF ~d1.ok THEN [ok |-> FALSE, errs |-> d1.errs, used |-> d1.at]
   ELSE LET h == BoundIndex(I, d1.v) IN
   IF h = 0 THEN [ok |-> FALSE, errs |-> {E_Method}, used |-> d1.pos]
-  ELSE LET d2 == Dec(I.methods[h].args, Src(bs), d1.pos, Inf) IN
+  ELSE LET d2 == Dec(I.methods[h].args, SrcW(bs, viw), d1.pos, Inf) IN
   IF ~d2.ok THEN [ok |-> FALSE, errs |-> d2.errs, used |-> d2.at]
   ELSE [ok |-> TRUE, h |-> h, args |-> d2.v, used |-> d2.pos]
+Dispatch(I, bs) == DispatchW(I, bs, VarIndexWidth)
 
 \* ---- acceptance of one recorded call (used by TrRpc and, for in-thread traffic, by TrThreads) ----------------
 Has(r, f) == f \in DOMAIN r
@@ -83,11 +87,30 @@ SelsFail(I, e) ==
              \cup Tag(r.isel = r.sel, "selector-by-index:" \o r.m)
              \cup Tag(r.match = I.methods[i].bound, "bindings-match:" \o r.m) : j \in 1..Len(e.sels)}
 
-CallFails(I, c) ==
+\* C14 when something fails underneath (a fault injected on one of the pipe ends): a dispatcher pass that reports
+\* success has run exactly one handler and sent its whole return value - "each successful call ... produces exactly one
+\* reply" - and a caller that reports success holds the handler's return value
+FaultedCallFailsW(I, c, viw) ==
+  LET D == DispatchW(I, c.seen, viw) IN
+  (IF c.dstatus = 0
+   THEN Tag(D.ok /\ Len(c.hlog) = 1 /\ c.rep = Enc(I.methods[D.h].ret, c.hlog[1].ret), "dispatcher-success-without-whole-reply")
+   ELSE {})
+  \cup (IF c.st_invoke = 0 /\ ~ReturnsVoid(MethodOf(I, c.m))
+        THEN Tag(Len(c.hlog) = 1 /\ Has(c, "ret") /\ c.ret = c.hlog[1].ret, "invoke-success-without-handler-return")
+        ELSE {})
+
+EitherReading(F(_)) == LET f == F(VarIndexWidth) IN IF f = {} THEN {} ELSE IF F(4) = {} THEN {} ELSE f
+FaultedCallFails(I, c) == EitherReading(LAMBDA w : FaultedCallFailsW(I, c, w))
+
+CallFailsW(I, c, viw) ==
   LET raw == c.m = "Raw"
       tampered == raw \/ c.seen # c.req
-      D == Dispatch(I, c.seen) IN
-  (IF raw THEN {} ELSE Tag(c.req = Request(I, MethodOf(I, c.m), AsDeclared(MethodOf(I, c.m), c.m, c.args)), "request-framing"))
+      D == DispatchW(I, c.seen, viw) IN
+  \* over real pipes the dispatcher drops the connection as soon as it refuses a request: the caller may then fail
+  \* while still writing its arguments, and what travelled is a prefix of the request (never anything else)
+  (IF raw THEN {}
+   ELSE LET full == Request(I, MethodOf(I, c.m), AsDeclared(MethodOf(I, c.m), c.m, c.args)) IN
+        Tag(IF Has(c, "pipe") /\ ~D.ok THEN IsPrefixOf(c.req, full) ELSE c.req = full, "request-framing"))
   \cup
   (IF ~D.ok
    THEN Tag(c.dstatus \in MapErr(D.errs), "dispatch-status")
@@ -109,5 +132,6 @@ CallFails(I, c) ==
                               \cup Tag(c.rep_left = 0, "reply-consumed"))
               ELSE {})
         \cup Tag(c.req_left = Len(c.seen) - D.used, "request-consumed"))
+CallFails(I, c) == EitherReading(LAMBDA w : CallFailsW(I, c, w))
 
 =============================================================================
